@@ -23,6 +23,7 @@ class Scheduler(object):
         self.want = {}                     # name -> callable enabled()
         self.free = False
         self.trace = []
+        self.notifies = []   # (thread, op, threads left waiting un-notified)
         self.dead = False
 
     def me(self):
@@ -98,6 +99,8 @@ class CoopLock(object):
 
     def release(self):
         self.s.point(None, "release")
+        if self.owner is None:
+            raise RuntimeError("release unlocked lock")
         self.count -= 1
         if self.count <= 0:
             self.owner = None
@@ -148,11 +151,13 @@ class CoopCondition(object):
         for _ in range(n):
             if self.waiting:
                 self.notified.add(self.waiting.pop(0))
+        self.s.notifies.append((self.s.me(), "notify", list(self.waiting)))
 
     def notify_all(self):
         self.s.point(None, "notify_all")
         while self.waiting:
             self.notified.add(self.waiting.pop(0))
+        self.s.notifies.append((self.s.me(), "notify_all", []))
 
 
 def load_controller(path, sched):
@@ -258,6 +263,7 @@ def run(path, programs, order, timeout=20.0):
     out["blocked"] = [n for n in names if n not in out["finished"]]
     out["executed"] = executed
     out["trace"] = sched.trace
+    out["notifies"] = sched.notifies
     out["mismatch"] = sched.mismatch
     out["timed_out"] = any(t.is_alive() for t in threads) and not sched.dead
     return out
